@@ -105,10 +105,14 @@ func (a *Accessory) Identify() {
 // Adds a service to the accessory and updates the ids of the service and the corresponding characteristics
 func (a *Accessory) AddService(s *service.Service) {
 	a.Services = append(a.Services, s)
+	a.UpdateIDs()
 }
 
 // UpdateIDs updates the service and characteirstic ids.
 func (a *Accessory) UpdateIDs() {
+	// The ids depend on the order of the services and characteristics only,
+	// not on how often they were updated before.
+	a.idCount = 1
 	for _, s := range a.Services {
 		s.ID = a.idCount
 		a.idCount++
